@@ -19,7 +19,7 @@ import (
 
 func init() { register("C15", checkC15) }
 
-var transDefaults = map[string]any{"e": "", "op": "", "target": "", "fwd": "", "flavour": "", "s": "", "d": "", "v": 0}
+var transDefaults = map[string]any{"e": "", "op": "", "target": "", "fwd": "", "flavour": "", "h": "", "s": "", "d": "", "v": 0}
 
 // cmsg is known to the user Codec only (not registered with the wire registry).
 type cmsg struct {
@@ -51,6 +51,7 @@ type transCase struct {
 		Target  string `json:"target"`
 		Fwd     string `json:"fwd"`
 		Flavour string `json:"flavour"`
+		Hist    string `json:"hist"`
 	} `json:"case"`
 	Expected string `json:"expected"`
 }
@@ -59,6 +60,8 @@ type transWorld struct {
 	a, b         *actor.System
 	addrA, addrB string
 	opCtx        vivid.ActorContext
+	opCtxB       vivid.ActorContext // an actor with the same path as the operator, on system B
+	killedSeenB  []vivid.ActorRef
 	mu           sync.Mutex
 	got          map[string][]any // actor name -> messages received
 	dead         map[string]bool
@@ -162,6 +165,22 @@ func newTransWorld() (*transWorld, error) {
 		return nil, err
 	}
 	w.opCtx = <-started
+	startedB := make(chan vivid.ActorContext, 1)
+	if _, err := w.b.ActorOf(vivid.ActorFN(func(ctx vivid.ActorContext) {
+		switch m := ctx.Message().(type) {
+		case *vivid.OnLaunch:
+			startedB <- ctx
+		case *vivid.OnKilled:
+			if m.Ref != nil && !m.Ref.Equals(ctx.Ref()) {
+				w.mu.Lock()
+				w.killedSeenB = append(w.killedSeenB, m.Ref)
+				w.mu.Unlock()
+			}
+		}
+	}), vivid.WithActorName("operator")); err != nil {
+		return nil, err
+	}
+	w.opCtxB = <-startedB
 	for _, sys := range []*actor.System{w.a, w.b} {
 		if _, err := sys.ActorOf(vivid.ActorFN(func(ctx vivid.ActorContext) {
 			switch ctx.Message().(type) {
@@ -207,6 +226,30 @@ func (w *transWorld) run(tc *transCase) (string, error) {
 	tsys, tref, err := w.place(c.Target, tname, mode)
 	if err != nil {
 		return "", err
+	}
+	if c.Hist == "recreated" {
+		// first incarnation: hears from the operator, is terminated by its own system; then the path is re-used
+		warm := newRmsg(uint32(1000000+n), "tell", 8, randSrc(n))
+		w.opCtx.Tell(tref, warm)
+		if !waitFor(1500*time.Millisecond, func() bool { return len(w.received(tname)) > 0 }) {
+			return "", fmt.Errorf("first incarnation did not receive the warm-up message")
+		}
+		own, err := tsys.FindActor(tsys.Ref().GetAddress() + "/" + tname)
+		if err != nil {
+			return "", err
+		}
+		tsys.Kill(own, false, "first incarnation")
+		if !waitFor(1500*time.Millisecond, func() bool { return w.isDead(tname) }) {
+			return "", fmt.Errorf("first incarnation did not terminate")
+		}
+		time.Sleep(20 * time.Millisecond)
+		w.mu.Lock()
+		w.dead[tname] = false
+		w.got[tname] = nil
+		w.mu.Unlock()
+		if tsys, tref, err = w.place(c.Target, tname, mode); err != nil {
+			return "", fmt.Errorf("path could not be re-used: %w", err)
+		}
 	}
 	id := int(n)
 	var msg, ask vivid.Message = newRmsg(uint32(id), "tell", 8, randSrc(int64(id))), newRmsg(uint32(id), "ask", 8, randSrc(int64(id)))
@@ -289,6 +332,52 @@ func (w *transWorld) run(tc *transCase) (string, error) {
 			return "notified", nil
 		}
 		return "not-notified", nil
+	case "watch-both":
+		// the operator on A and an actor with the same path on B both watch the target
+		var trefB vivid.ActorRef
+		if c.Target == "remote" {
+			trefB, err = w.b.FindActor(w.addrB + "/" + tname)
+		} else {
+			trefB, err = w.b.CreateRef(w.addrA, "/"+tname)
+		}
+		if err != nil {
+			return "", err
+		}
+		w.opCtx.Watch(tref)
+		time.Sleep(100 * time.Millisecond)
+		w.opCtxB.Watch(trefB)
+		time.Sleep(150 * time.Millisecond)
+		var own vivid.ActorRef
+		if own, err = tsys.FindActor(tsys.Ref().GetAddress() + "/" + tname); err != nil {
+			return "", err
+		}
+		tsys.Kill(own, false, "transparency")
+		if !waitFor(1500*time.Millisecond, func() bool { return w.isDead(tname) }) {
+			return "", fmt.Errorf("target did not terminate")
+		}
+		seen := func(list *[]vivid.ActorRef) func() bool {
+			return func() bool {
+				w.mu.Lock()
+				defer w.mu.Unlock()
+				for _, r := range *list {
+					if r.GetPath() == "/"+tname {
+						return true
+					}
+				}
+				return false
+			}
+		}
+		okA := waitFor(1500*time.Millisecond, seen(&w.killedSeen))
+		okB := waitFor(1500*time.Millisecond, seen(&w.killedSeenB))
+		switch {
+		case okA && okB:
+			return "both-notified", nil
+		case okA:
+			return "only-A-notified", nil
+		case okB:
+			return "only-B-notified", nil
+		}
+		return "none-notified", nil
 	case "ping":
 		p, err := w.opCtx.Ping(tref, 1500*time.Millisecond)
 		if err == nil && p != nil {
@@ -376,10 +465,10 @@ func checkC15(c *core.Ctx) {
 				return
 			}
 			time.Sleep(5 * time.Millisecond)
-			ev := map[string]any{"e": "Cell", "op": tc.Case.Op, "target": tc.Case.Target, "fwd": tc.Case.Fwd, "flavour": tc.Case.Flavour,
+			ev := map[string]any{"e": "Cell", "op": tc.Case.Op, "target": tc.Case.Target, "fwd": tc.Case.Fwd, "flavour": tc.Case.Flavour, "h": tc.Case.Hist,
 				"s": out, "d": tc.Expected, "v": int(w.decodeFails.Load() - before)}
 			c.Add("evaluations", 1)
-			traces = append(traces, &Trace{Events: []map[string]any{ev}, Class: tc.Case.Op + "-" + tc.Case.Target, Name: fmt.Sprintf("%s/%s/%s/%s#%d", tc.Case.Op, tc.Case.Target, tc.Case.Fwd, tc.Case.Flavour, rep), Scenario: tc})
+			traces = append(traces, &Trace{Events: []map[string]any{ev}, Class: tc.Case.Op + "-" + tc.Case.Target + map[string]string{"recreated": "-recreated"}[tc.Case.Hist], Name: fmt.Sprintf("%s/%s/%s/%s/%s#%d", tc.Case.Op, tc.Case.Target, tc.Case.Fwd, tc.Case.Flavour, tc.Case.Hist, rep), Scenario: tc})
 		}
 		w.close()
 	}
@@ -388,7 +477,7 @@ func checkC15(c *core.Ctx) {
 	c.Add("traces_validated_against_impl", int64(res.Validated))
 	c.Set("distinct_nontrivial", len(cases))
 	c.Set("exhaustive", true)
-	c.Set("rule", "TLC enumerates the matrix operation {tell, ask, kill, poison kill, watch, unwatch, ping, pipe success, pipe failure, scheduler once} x target {local, remote} x forwarder {local, remote} (pipe) x message flavour {registered custom message, Codec-only message}; every cell is executed from an operator actor on system A against actors on A or on a second real system B over loopback TCP; TransMon compares the observed outcome with the location-independent expectation and requires that no built-in message fails to decode. Every cell is distinct; remote cells are the non-trivial ones.")
+	c.Set("rule", "TLC enumerates the matrix operation {tell, ask, kill, poison kill, watch, unwatch, ping, pipe success, pipe failure, scheduler once} x target {local, remote} x forwarder {local, remote} (pipe) x message flavour {registered custom message, Codec-only message} x path history {fresh, recreated under the same name after an earlier incarnation heard from the operator and terminated} (tell/ask/kill/ping), plus watch-both (two watchers with the same path, one on each system); every cell is executed from an operator actor on system A against actors on A or on a second real system B over loopback TCP; TransMon compares the observed outcome with the location-independent expectation and requires that no built-in message fails to decode. Every cell is distinct; remote cells are the non-trivial ones.")
 	if len(traces) > 0 {
 		c.Sample(traces[0].Events)
 		c.Sample(traces[len(traces)-1].Events)
